@@ -11,6 +11,9 @@
                          both select cases were ready)   15 i o  the user function of instance i returns o
              16 i  bookkeeping section of instance i     17 d  advance the clock    18 j  the j-th parked timer callback runs
              19  GetKeys
+             20 a  the a-th Release call, found parked between its rc.mtx section and Keyed.RemoveKey (gate 5 with
+                   rc.mtx free), goes on.  The code the model describes calls RemoveKey inside the rc.mtx section, where
+                   the harness never parks: the model has no such step (BadEvent); the monitors follow it.
    cond: 0 no condition, 1 always false, 2 "key is odd".  Outcomes: 0 nil, 1 context.Canceled, e+2 error e.
    Observation after every event:
      rets  nkeys (key data)*  ninst (code key data root canc)*  ndelta (key data outcome)*  ntimers (kind key deadline)*
@@ -18,7 +21,7 @@
      keys = GetKeysWithData() sorted; instance code 1 at first gate, 2 blocked, 3 in user code (then data of its record,
      root context, ctx.Err()!=nil), 4 parked before bookkeeping, 5 done; delta = exit-callback invocations during this
      event; timers = parked timer callbacks (kind 0 retry / 1 removal) ordered by deadline, kind, key, creation;
-     relcode 1 parked before its section, 2 done. *)
+     relcode 1 parked before its section, 2 done, 3 parked after its section before Keyed.RemoveKey (never in the model). *)
 From Util Require Import Common.Base Common.ListLemmas Keyed.Model.
 Open Scope N_scope.
 
@@ -288,7 +291,12 @@ Definition cond_ok (c k : N) : bool := match c with 0 => true | 1 => false | _ =
 Definition r_live (k : N) (x : rref) : bool := rr_cnt x && N.eqb (rr_key x) k.
 
 (* reference step: new state and the return values the call must produce (None: none to check) *)
-Definition r_step (dl clk ctx : N) (tims : list (N * N * N)) (r : rst) (e : list N) : rst * option (list N) :=
+(* [late]: the Release call of event 12 was observed parked again after its rc.mtx section, before Keyed.RemoveKey: the
+   references are updated, the removal request has not been made yet (event 20 makes it).  What the key set must be
+   then follows the property text: the key goes only if no counted reference to it is left at that moment. *)
+Definition r_release_remove (dl clk : N) (r : rst) (k : N) : rst :=
+  if Nat.eqb (cnt (r_live k) (r_refs r)) 0 then fst (r_remove dl clk r k) else r.
+Definition r_step (dl clk ctx : N) (tims : list (N * N * N)) (late : bool) (r : rst) (e : list N) : rst * option (list N) :=
   match e with
   | [2; k; _] => let '(r', (d, ex)) := r_request r k in (r', Some [d; nb ex])
   | [3; k] => let '(r', ex) := r_remove dl clk r k in (r', Some [nb ex])
@@ -328,10 +336,18 @@ Definition r_step (dl clk ctx : N) (tims : list (N * N * N)) (r : rst) (e : list
       | Some x =>
         if rr_cnt x then
           let r1 := set_r_refs r (set_nth (r_refs r) f {| rr_key := rr_key x; rr_rel := rr_rel x; rr_cnt := false |}) in
-          if Nat.eqb (cnt (r_live (rr_key x)) (r_refs r1)) 0 then (fst (r_remove dl clk r1 (rr_key x)), None) else (r1, None)
+          if late then (r1, None) else (r_release_remove dl clk r1 (rr_key x), None)
         else (r, None)
       | None => (r, None)
       end
+    | None => (r, None)
+    end
+  | [20; a] =>
+    match nth_error (r_rels r) (n2n a) with
+    | Some f => match nth_error (r_refs r) f with
+                | Some x => (r_release_remove dl clk r (rr_key x), None)
+                | None => (r, None)
+                end
     | None => (r, None)
     end
   | [13; k] =>
@@ -411,7 +427,11 @@ Definition mon1 (m : mst) (e : list N) (p : pobs) : mst * list (nat * nat) :=
   let clock' := match e with [17; d] => m_clock m + d | _ => m_clock m end in
   let ctx' := match e with [1; c; _] => c | _ => m_ctx m end in
   (* ---- C06: the reference key set ---- *)
-  let '(r1, expect) := r_step (m_delay m) (m_clock m) (m_ctx m) (m_tims m) (m_ref m) e in
+  let late := match e with
+              | [12; a] => match nth_error (po_rels p) (n2n a) with Some c => N.eqb c 3 | None => false end
+              | _ => false
+              end in
+  let '(r1, expect) := r_step (m_delay m) (m_clock m) (m_ctx m) (m_tims m) late (m_ref m) e in
   let news := skipn (m_ninst m) (po_insts p) in
   let spawned_keys := map ikey_of news in
   (* recorded exits of the current record set / clear [failed]; a spawn clears it *)
@@ -446,6 +466,25 @@ Definition mon1 (m : mst) (e : list N) (p : pobs) : mst * list (nat * nat) :=
                                               negb (N.eqb c 3) || opt_nat_eqb (fst ix) (alook incs' d))
                                    (combine sinc' (po_insts p)))
              ++ fails 7 4 (match news with [] => true | _ => nz ctx' end) in
+  (* removal, judged against what the caller asked for (the reference key set, not the observed one): a key is GONE when
+     the requests so far have removed it - it is not in the reference set (removed at once: no delay configured, or its
+     routine had failed; or its own delayed-removal callback has run), or its removal is pending, the deadline has
+     passed and the callback of that removal is not merely waiting at its gate (the harness may run a due callback
+     late; the key legitimately lives until then).  A re-request inside the delay clears the pending removal, so such a
+     key is not gone.  For a gone key the context of an instance inside the routine function is cancelled (7/6) and no
+     instance is started (7/7). *)
+  let removal_parked (k d : N) : bool :=
+    existsb (fun t => let '(kind, k', d') := t in nz kind && N.eqb k' k && N.eqb d' d) (po_tims p) in
+  let gone (k : N) : bool :=
+    match alook keys2 k with
+    | None => true
+    | Some i => match ki_pend i with
+                | Some d => N.leb d clock' && negb (removal_parked k d)
+                | None => false
+                end
+    end in
+  let f7e := fails 7 6 (forallb (fun x => let '(c, k, _, _, canc) := x in negb (N.eqb c 3) || nz canc || negb (gone k)) (po_insts p))
+             ++ fails 7 7 (forallb (fun x => negb (gone (ikey_of x))) news) in
   (* retry obligations *)
   let retry0 := match e with
                 | [1; 0; _] => []
@@ -476,7 +515,7 @@ Definition mon1 (m : mst) (e : list N) (p : pobs) : mst * list (nat * nat) :=
   ({| m_delay := m_delay m; m_script := m_script m; m_clock := clock'; m_ctx := ctx'; m_ref := r2;
       m_okeys := po_keys p; m_incs := incs'; m_ninc := ninc'; m_ninst := length (po_insts p); m_sinc := sinc';
       m_bo := bo'; m_retry := retry3; m_tims := po_tims p |},
-   f6 ++ f7a ++ f7b ++ f7c ++ f7d).
+   f6 ++ f7a ++ f7b ++ f7c ++ f7d ++ f7e).
 
 Definition mon (m : option mst) (e o : list N) : option mst * list (nat * nat) :=
   match m with
